@@ -89,11 +89,11 @@ def symbolic_for(ip, node, it, fr):
     modified = sorted((assigned_names(node.body) | mutated_names(node.body) | assigned_names([node.target])) & set(fr.env) |
                       (assigned_names(node.body) - set(fr.env)))
 
-    def inv_at(k):
+    def inv_at(k, mode="goal"):
         env = dict(fr.env)
         env["k"] = ZInt(k)
         env["xs"] = ZSeq(seq, "list")
-        return clause_bool(ip, inv, _pick(ip, inv, env), f"{owner}#inv[{key}]")
+        return clause_bool(ip, inv, _pick(ip, inv, env), f"{owner}#inv[{key}]", mode=mode)
 
     # 1. holds on entry
     ip.path.oblige(f"{owner}#inv-entry[{key}]", inv_at(z3.IntVal(0)), kind="invariant")
@@ -106,7 +106,7 @@ def symbolic_for(ip, node, it, fr):
         # 2. an arbitrary iteration preserves the invariant
         k = V.fresh("k", V.I)
         ip.path.assume(z3.And(k >= 0, k < n))
-        ip.path.assume(inv_at(k))
+        ip.path.assume(inv_at(k, "assume"))
         ip.assign_target(node.target, elem(k), fr)
         try:
             ip.exec_block(node.body, fr)
@@ -117,7 +117,7 @@ def symbolic_for(ip, node, it, fr):
         ip.path.oblige(f"{owner}#inv-preserved[{key}]", inv_at(k + 1), kind="invariant")
         raise PathEnd()
     # 3. after the loop
-    ip.path.assume(inv_at(n))
+    ip.path.assume(inv_at(n, "assume"))
     ip.exec_block(node.orelse, fr)
 
 
